@@ -6,7 +6,7 @@ import ast
 from typing import List, Optional
 
 from ..context import Ctx
-from ..kernel import expand, placeholder_closure, result_of, xshow
+from ..kernel import expand, expand1, placeholder_closure, result_of, xshow
 from ..loader import AnalysisError, norm_stmt
 from ..paths import Ev, Path, show
 from ..resolve import own_nodes
@@ -357,20 +357,23 @@ def rule_allof(ctx: Ctx, rule: str = "C01.allof"):
             rep.check(ok, rule, fn.loc(), "async_all starts one evaluation per guard of the list, unfiltered", fn.key, base)
             break
     # registry delegates and answers True for a key with no guards
-    reg = ctx.fn("CallbacksRegistry.all")
-    for p in ctx.paths(reg, exc_edges="none"):
-        v = expand(p.value, p.events) if p.kind == "return" else None
-        if isinstance(v, ast.Constant):
-            rep.check(v.value is True, rule, reg.loc(), "a transition without guards is enabled", reg.key, f"return {show(v)}")
-        else:
-            ok = isinstance(v, ast.Call) and show(v.func) == "self._registry[key].all"
-            rep.check(ok, rule, reg.loc(), "registry.all delegates to the executor of that key", reg.key, f"return {show(v)}")
-    rega = ctx.fn("CallbacksRegistry.async_all")
-    for p in ctx.paths(rega, exc_edges="none"):
-        v = expand(p.value, p.events) if p.kind == "return" else None
-        ok = isinstance(v, ast.Call) and show(v.func) == "self._registry[key].async_all" or (
-            isinstance(v, ast.Constant) and v.value is True)
-        rep.check(ok, rule, rega.loc(), "registry.async_all delegates to the executor of that key", rega.key, f"return {show(v)}")
+    from ..shapes import canon_lookup, missing_fact
+
+    for meth in ("all", "async_all"):
+        reg = ctx.fn(f"CallbacksRegistry.{meth}")
+        key = reg.params[1]
+        for p in ctx.paths(reg, exc_edges="none"):
+            if p.kind != "return":
+                continue
+            v = expand1(p.value, p.events)
+            if isinstance(v, ast.Constant):
+                miss = missing_fact(p, "self._registry", key)
+                rep.check(v.value is True and miss is True, rule, reg.loc(), "a transition without guards is enabled (and only the missing key is answered "
+                          "without consulting an executor)", reg.key, f"return {show(v)} with missing={miss}")
+            else:
+                lk = canon_lookup(v.func.value, p.events) if isinstance(v, ast.Call) and isinstance(v.func, ast.Attribute) else None
+                ok = lk == ("self._registry", key) and v.func.attr == meth and [show(a) for a in v.args] == ["*args"]
+                rep.check(bool(ok), rule, reg.loc(), f"registry.{meth} delegates to the executor of that key", reg.key, f"return {show(v)}")
 
 
 def rule_expected(ctx: Ctx, rule: str = "C01.expected"):
